@@ -143,4 +143,58 @@ theorem roundtrip (base : Int) (hb : LegalOutBase base) (x : Int) :
 example : mpz_get_str (-36) (-1295) = some [45, 90, 90] ∧ mpz_set_str 36 [45, 90, 90] = some (-1295) := by
   decide +kernel
 
+/-- mpz_sizeinbase is exact for powers of two (2, 4, 8, 16, 32): the digit count of |x|, and 1 for x = 0. -/
+theorem sizeinbase_pow2_exact (b : Nat) (hb : 2 ≤ b) (hb62 : b ≤ 62) (hp : pow2P b = true) (x : Int) :
+    mpz_sizeinbase x b = if x = 0 then 1 else (digitsOf b x.natAbs).length :=
+  sizeinbase_pow2_of_table ((bases_table_ok.1 b (by omega) hb).2 hp) hp x
+
+example : mpz_sizeinbase (2 ^ 64) 16 = 17 ∧ mpz_sizeinbase (2 ^ 64 - 1) 16 = 16 ∧ mpz_sizeinbase 0 8 = 1 := by
+  decide +kernel
+
+/-- The certificates for the regenerated `chars_per_bit_exactly` column: for every base 3..62 that is not a
+    power of two the binary64 constant c lies on the right side of Farey neighbours of log_b 2 whose
+    denominators add up to more than 2^24 (kernel-checked big-number comparisons `2^v < b^u`, `b^p ≤ 2^q`). -/
+theorem sizeinbase_table_ok : ∀ b < 63, 2 ≤ b → pow2P b = false → SibOk b := by decide +kernel
+
+/- FULL STATEMENT (the property as written): for every x ≠ 0 and every base 3..62 that is not a power of
+   two, `mpz_sizeinbase x b` is the digit count of |x| or one more.
+   It is NOT provable — and for the source as pinned it was false: with the table constant below
+   log 2 / log b the answer is one too SMALL, first at x = 58^3700209 (21 675 754 bits), see
+   corpus/C06/sizeinbase_too_small.ops; repaired in /repo by making every constant an upper bound.
+   With a 53-bit constant the statement cannot hold for unboundedly large operands in any case
+   (`≤ digits + 1` fails near 10^16 bits), and certifying `c ≥ log_b 2` itself needs 10^8..10^9-bit
+   powers per base.  What is proved is the statement for every operand below 2^(2^24) (bit length up to
+   16 777 216, i.e. 2 MiB operands / about 5 million decimal digits): -/
+/-- sizeinbase_bound (partial: |x| < 2^sibT, sibT = 2^24 bits): exact or one too large — in particular never too small,
+    which is what makes the `sizeinbase + 2` buffer of mpz_get_str sufficient. -/
+theorem sizeinbase_bound_partial (b : Nat) (hb : 2 ≤ b) (hb62 : b ≤ 62) (hnp : pow2P b = false)
+    (x : Int) (hx : x ≠ 0) (hbits : x.natAbs < 2 ^ sibT) :
+    mpz_sizeinbase x b = (digitsOf b x.natAbs).length ∨ mpz_sizeinbase x b = (digitsOf b x.natAbs).length + 1 :=
+  sizeinbase_bound_of hb hnp (sizeinbase_table_ok b (by omega) hb hnp) x hx hbits
+
+-- exact (1000, 10, 7) and one too large (999, 64, 8, 9)
+example : mpz_sizeinbase 1000 10 = 4 ∧ mpz_sizeinbase 10 10 = 2 ∧ mpz_sizeinbase 7 10 = 1 ∧
+    mpz_sizeinbase 999 10 = 4 ∧ mpz_sizeinbase 64 10 = 3 ∧ mpz_sizeinbase 8 10 = 2 ∧ mpz_sizeinbase 9 10 = 2 := by
+  decide +kernel
+
+/-- Buffer clause (partial, same bound): the string mpz_get_str produces, with its terminating NUL, fits
+    in `mpz_sizeinbase (x, |base|) + 2` bytes, for every legal base and every |x| < 2^(2^24). -/
+theorem get_str_fits_partial (base : Int) (hb : LegalOutBase base) (x : Int) (hbits : x.natAbs < 2 ^ sibT) :
+    (getStrSpec base x).length + 1 ≤ mpz_sizeinbase x base.natAbs + 2 := by
+  have hb2 : 2 ≤ base.natAbs ∧ base.natAbs ≤ 62 := by unfold LegalOutBase at hb; omega
+  unfold getStrSpec
+  simp only [List.length_append, List.length_map]
+  by_cases hx : x = 0
+  · subst hx; simp [mpz_sizeinbase, sizeinbase, natLimbs_zero]
+  · have hsign : (if x < 0 then [45] else ([] : List Nat)).length ≤ 1 := by split <;> simp
+    simp only [hx, if_false]
+    cases hp : pow2P base.natAbs with
+    | true =>
+      have := sizeinbase_pow2_exact _ hb2.1 hb2.2 hp x
+      simp only [hx, if_false] at this
+      omega
+    | false =>
+      have := sizeinbase_bound_partial _ hb2.1 hb2.2 hp x hx hbits
+      omega
+
 end Mpir.Radix
